@@ -325,10 +325,12 @@ package dag
 //@ func (*notifier).Run
 //@   prop C14
 //@   requires !isNilIface(p.db)
-//@   loop 1 invariant $i == 0 || isNilIface(ret(call (*notifier).notifyNow #1)) || !(readyToRetry[$i-1].Retries < maxRetries)
+//@   loop 1 invariant $i == 0 || isNilIface(ret(call (*notifier).notifyNow #1)) || !(readyToRetry[$i-1].Retries < maxRetries) || (did(call errors.As #1) && ret(call errors.As #1) == true)
 //@        || (did(call append #1) && len(arg(call append #1, 1)) == 1 && same(arg(call append #1, 1)[0], readyToRetry[$i-1]))
 //@   call (*notifier).notifyNow #1 requires [every-stored-event-is-offered-again] same(arg(1), readyToRetry[$i-1])
 //@   call (*notifier).retry #1 requires [failed-events-enter-the-retry-loop] same(arg(1), failedAtStartup[$i-1])
+// an event whose receiver reported a fatal error in this replay is not put into the retry loop
+//@   call append #1 requires [not-after-a-fatal-report] did(call errors.As #1) && ret(call errors.As #1) == false && arg(call errors.As #1, 0) == ret(call (*notifier).notifyNow #1)
 
 // ---- C14: the notifier: an event leaves the store only when its receiver finished it ----
 
